@@ -32,7 +32,9 @@ pub fn build(seed: u64, rec: &mut Recorder) -> World {
     let mut w = World::new(seed);
     w.init_config("C1", 300);
     w.init_config("C2", 1000);
-    for u in ["U1", "U2", "U3", "mallory"] {
+    // every authority recorded anywhere in the world is a different key (an instruction that consults the wrong
+    // authority field then shows: the probes let each of them sign every privileged instruction)
+    for u in ["U1", "U2", "U3", "mallory", "extAuthC1", "badgeAuthC1", "extAuthC2", "badgeAuthC2", "delAuthC1", "delAuthC2", "prAuthC1"] {
         w.add_user(u);
     }
     let keys = w.sorted_keys(6);
@@ -61,7 +63,7 @@ pub fn build(seed: u64, rec: &mut Recorder) -> World {
     let c = af_default();
     for cfg in ["C1", "C2"] {
         let ipa = Pubkey::default(); // permission-less pool initialization
-        let del = w.users[&format!("feeAuth{cfg}")];
+        let del = w.users[&format!("delAuth{cfg}")];
         let ix = w.ix_init_adaptive_fee_tier(cfg, 1024, 64, ipa, del, 3000, &c);
         w.must_ix(&ix);
     }
@@ -83,6 +85,11 @@ pub fn build(seed: u64, rec: &mut Recorder) -> World {
         let ix = w.ix_init_config_extension(cfg);
         w.must_ix(&ix);
         let ix = w.ix_set_config_feature_flag(cfg, true);
+        w.must_ix(&ix);
+        // (both authorities of the extension default to the fee authority)
+        let ix = w.ix_set_token_badge_authority(cfg, &format!("badgeAuth{cfg}"));
+        w.must_ix(&ix);
+        let ix = w.ix_set_config_extension_authority(cfg, &format!("extAuth{cfg}"));
         w.must_ix(&ix);
     }
     let ix = w.ix_init_token_badge("C1", "TA");
@@ -124,6 +131,11 @@ pub fn build(seed: u64, rec: &mut Recorder) -> World {
         let m = w.mints[mint].clone();
         w.must("fund reward vault", &spl_token::instruction::mint_to(&spl_token::ID, &m.key, &vault, &m.auth, &[], 1 << 45).unwrap());
         let ix = w.ix_set_reward_emissions(pool, idx, 1000u128 << 64, false);
+        w.must_ix(&ix);
+    }
+    // the pools' own reward authority differs from the config's reward-emissions super authority it defaults to
+    for pool in ["P1", "P2"] {
+        let ix = w.ix_set_reward_authority(pool, 0, "prAuthC1");
         w.must_ix(&ix);
     }
     // some trading so that fees, protocol fees and rewards are owed
@@ -215,7 +227,7 @@ pub fn probes(w: &World, rec: &mut Recorder, ix: &Ix, cfg: &MatrixCfg, rng_salt:
             probe(w, rec, &v, json!({"kind": "auth", "slot": slot, "variant": "unsigned"}), &[]);
             // other keys, signed
             let right = ix.key(&slot);
-            for other in ["mallory", "U2", "feeAuthC1", "collectAuthC1", "rewardAuthC1", "feeAuthC2", "collectAuthC2"] {
+            for other in ["mallory", "U2", "feeAuthC1", "collectAuthC1", "rewardAuthC1", "feeAuthC2", "collectAuthC2", "extAuthC1", "badgeAuthC1", "delAuthC1", "prAuthC1", "U3", "badgeAuthC2"] {
                 let k = w.users[other];
                 if k == right {
                     continue;
@@ -470,7 +482,7 @@ pub fn run(cfg: &MatrixCfg, rec: &mut Recorder) {
     { let ix = w.ix_set_adaptive_fee_constants("PA", &c2, 1); step(&mut w, rec, cfg, &mut n, ix); }
     { let ix = w.ix_set_default_base_fee_rate("C1", 1024, 2000); step(&mut w, rec, cfg, &mut n, ix); }
     { let ix = w.ix_set_preset_adaptive_fee_constants("C1", 1024, &c2); step(&mut w, rec, cfg, &mut n, ix); }
-    let del = w.users["feeAuthC1"];
+    let del = w.users["delAuthC1"];
     { let ix = w.ix_set_fee_rate_by_delegated("PA", del, 4000); step(&mut w, rec, cfg, &mut n, ix); }
     { let ix = w.ix_set_delegated_fee_authority("C1", 1024, "U3"); step(&mut w, rec, cfg, &mut n, ix); }
     { let ix = w.ix_set_initialize_pool_authority("C1", 1024, "U3"); step(&mut w, rec, cfg, &mut n, ix); }
